@@ -163,6 +163,8 @@ def run(ctx):
     # iterators over captured content parse element by element (content-only expectation) in the capture's mode
     K.check_redecode_modes(ctx, f)
 
+    check_roa_limits(ctx, f)
+
     # ---- C05.b pivots -----------------------------------------------------------------------
     K.check_time_pivots(ctx, f)
 
@@ -223,3 +225,36 @@ def run(ctx):
         ctx.ob("R-SIB", "%s:encoder-reads-every-field" % short(adt), nb > 0 and not missing,
                "encode_ref of %s reads every field the decoder fills%s" % (short(adt), (" (exempt: %s)" % exempt) if exempt else ""),
                detail={"fields": [n for n, _ in flds], "not_encoded": missing})
+
+
+def check_roa_limits(ctx, f):
+    """The capture-time parser of a ROA address accepts exactly the (prefix length, max length) pairs that are legal for
+    the family — in particular every pair a builder can legitimately produce (max length == family maximum included)."""
+    from engine import orderlogic as OL
+    fn = "repository::roa::RoaIpAddress::skip_opt_in"
+    b = f.body(fn)
+    if b is None:
+        return ctx.missing("R-REG", "RoaIpAddress::skip_opt_in", fn)
+    ctx.saw_fn(fn)
+    names = [(r"^Prefix::addr_len\(.*\.prefix\)$", "p"), (r"^AddressFamily::max_addr_len\(", "f"), (r"\.max_length↓Some\.0$", "m")]
+
+    def label(r):
+        if r.startswith("result::Result::Ok{0: option::Option::Some"):
+            return "accept"
+        if r.startswith("result::Result::Err"):
+            return "reject"
+        return None
+
+    def has(opq, rx, val):
+        return any(re.search(rx, d) and v == val for d, v in opq)
+    rows = [
+        ("no-maxLength", lambda o: not has(o, r"\.max_length\)$", 1), lambda e: "accept" if e["p"] <= e["f"] else "reject",
+         "without maxLength: accepted iff prefix length ≤ family maximum"),
+        ("with-maxLength", lambda o: not has(o, r"\.max_length\)$", None),
+         lambda e: "accept" if e["p"] <= e["f"] and e["p"] <= e["m"] <= e["f"] else "reject",
+         "with maxLength m: accepted iff prefix length ≤ m ≤ family maximum"),
+    ]
+    for key, sel, spec, text in rows:
+        ok, det = OL.decide_table(b, K.sym_of(b), names, spec, label, select=sel)
+        ctx.ob("R-REG", "RoaIpAddress::skip_opt_in:%s" % key, ok, "ROA address %s (on every ordering of the three numbers)" % text,
+               where=b.loc, detail=det)
